@@ -40,12 +40,12 @@ func init() {
 			Old: "\tcase typ == jsonTypeUint32 && large:\n\t\t// Value is only inlined if large.\n\t\tprintJSONUint32(", New: "\tcase typ == jsonTypeUint32 && large:\n\t\t// Value is only inlined if large.\n\t\tprintJSONInt32(",
 			Expect: "C14-R2 inline@entry[type=8,large]"},
 		Variant{ID: "c14-r3-array-offset-small", Prop: "C14", File: "replication/binlog_event_json.go",
-			Old: "func printJSONArray(data []byte, large bool, result *bytes.Buffer) error {\n\tpos := 0\n\telementCount, pos := readOffsetOrSize(data, pos, large)\n\tsize, pos := readOffsetOrSize(data, pos, large)",
-			New: "func printJSONArray(data []byte, large bool, result *bytes.Buffer) error {\n\tpos := 0\n\telementCount, pos := readOffsetOrSize(data, pos, large)\n\tsize, pos := readOffsetOrSize(data, pos, false)",
+			Old:    "func printJSONArray(data []byte, large bool, result *bytes.Buffer) error {\n\tpos := 0\n\telementCount, pos := readOffsetOrSize(data, pos, large)\n\tsize, pos := readOffsetOrSize(data, pos, large)",
+			New:    "func printJSONArray(data []byte, large bool, result *bytes.Buffer) error {\n\tpos := 0\n\telementCount, pos := readOffsetOrSize(data, pos, large)\n\tsize, pos := readOffsetOrSize(data, pos, false)",
 			Expect: "C14-R3 size-class@printJSONArray"},
 		Variant{ID: "c14-r3-object-stride", Prop: "C14", File: "replication/binlog_event_json.go",
-			Old: "\t\tif large {\n\t\t\tpos += 5 // type byte + 4 bytes\n\t\t} else {\n\t\t\tpos += 3 // type byte + 2 bytes\n\t\t}\n\t}\n\tresult.WriteByte(')')\n\treturn nil\n}\n\nfunc printJSONArray",
-			New: "\t\tif large {\n\t\t\tpos += 5 // type byte + 4 bytes\n\t\t} else {\n\t\t\tpos += 2 // type byte + 2 bytes\n\t\t}\n\t}\n\tresult.WriteByte(')')\n\treturn nil\n}\n\nfunc printJSONArray",
+			Old:    "\t\tif large {\n\t\t\tpos += 5 // type byte + 4 bytes\n\t\t} else {\n\t\t\tpos += 3 // type byte + 2 bytes\n\t\t}\n\t}\n\tresult.WriteByte(')')\n\treturn nil\n}\n\nfunc printJSONArray",
+			New:    "\t\tif large {\n\t\t\tpos += 5 // type byte + 4 bytes\n\t\t} else {\n\t\t\tpos += 2 // type byte + 2 bytes\n\t\t}\n\t}\n\tresult.WriteByte(')')\n\treturn nil\n}\n\nfunc printJSONArray",
 			Expect: "C14-R3 stride@printJSONObject[small]"},
 		Variant{ID: "c14-r4-reader-advance", Prop: "C14", File: "replication/binlog_event_json.go",
 			Old: "\t\t\t\tint(data[pos+3])<<24,\n\t\t\tpos + 4", New: "\t\t\t\tint(data[pos+3])<<24,\n\t\t\tpos + 2",
